@@ -121,3 +121,25 @@ Proof. vm_compute. reflexivity. Qed.
 Example ex_spec_err :
   let E := snd (erun (lsplit 0 2) lsizeof 2 hist) in (E 0%nat, E 1%nat, E 2%nat) = (true, true, false).
 Proof. vm_compute. reflexivity. Qed.
+
+(* round 5: batcher_conserves / done_only_after_batches_items are not vacuous: the foreign-error history is a
+   well-formed history, and the ghosts in numbers (everything exported at the end, nothing parked or in flight) *)
+From Verif Require Import C04.Proofs8 C04.Checker.
+Example ex_wf_events : wf_events w_unit Bytes fe_hist.
+Proof.
+  intros r H. cbn in H. destruct H as [H|[H|H]].
+  - injection H as <-. repeat constructor; cbn; lia.
+  - injection H as <-. repeat constructor; cbn; lia.
+  - repeat (destruct H as [H|H]; [discriminate H|]). destruct H.
+Qed.
+Example ex_crun :
+  let '(st, n, rs, F) := crun w_unit Bytes 120 120 fe_hist in
+  (cur_items st, fly_items st, map iid F, length rs) = ([], [], [1; 2; 3; 4], 2%nat).
+Proof. vm_compute. reflexivity. Qed.
+(* the clause checker on a recorded case: a logs split at max 2 items *)
+Example ex_checker :
+  clause_code (CL3 0 0 2 ((-1), [(1, 10, [(1, 10, [(1, 5, 1); (2, 5, 1); (3, 5, 1)])])]) None
+                   (Some [((-1), 2, [(1, [(1, [1; 2])])]); (1, 1, [(1, [(1, [3])])])])) = 0 /\
+  clause_code (CL3 0 0 2 ((-1), [(1, 10, [(1, 10, [(1, 5, 1); (2, 5, 1); (3, 5, 1)])])]) None
+                   (Some [((-1), 2, [(1, [(1, [1; 2])])])])) = 2.
+Proof. vm_compute. split; reflexivity. Qed.
